@@ -7,6 +7,7 @@ Terms: {"v":name} | {"c":text} | {"l":[params],"b":body} | {"f":func,"a":[args]}
   {"op":"simp","q":T,"n":k,"fuel":k}               -> {"q":T,"n":k,"bang":bool}
   {"op":"pre","q":T}                               -> {"q":T,"aliasRisk":bool,"shadowRisk":bool}   (the query as simplify_chained_calls receives it)
   {"op":"wprint","q":T}                            -> {"toks":[..]} | {"none":true}
+  {"op":"wprint2","q":T}                           -> {"toks":[..],"wireOK":bool,"back":T,"changed":bool} | {"none":true}   (wprint after wirePre)
   {"op":"wparse","toks":[..]}                      -> {"q":T} | {"none":true}
   {"op":"procmd","items":[[kind,key,val]..],"keys":[..]}   -> {"err":cls} | {"types":[..],"fns":[..],"enums":[..],"injects":[..],"scripts":[..]}
   {"op":"variant","kind":K,"q":T,"q2":T,...}       -> {"related":bool,"excluded":string|null, ...}
@@ -22,6 +23,7 @@ import Lean.Data.Json
 import Std.Data.HashMap
 import FaxVerif.C08.Spec
 import FaxVerif.C08.MdModel
+import FaxVerif.C08.WireN
 open Lean FaxVerif.C08
 
 partial def qOfJson (j : Json) : Except String Q := do
@@ -169,6 +171,12 @@ def handleReq (store : Store) (j : Json) : Except String Json := do
     match wprint q with
     | some t => return Json.mkObj [("toks", jstrs t), ("wireOK", wireOK q)]
     | none => return Json.mkObj [("none", true), ("wireOK", wireOK q)]
+  else if op == "wprint2" then
+    -- qastle's printer on every query (n-ary and/or, chained comparisons): tokens, and what comes back over the wire
+    let q ← qOfJson (← j.getObjVal? "q")
+    match wprint2 q with
+    | some t => return Json.mkObj [("toks", jstrs t), ("wireOK", wireOK (wirePre q)), ("back", qToJson (wireNorm2 q)), ("changed", !(wirePre q == q))]
+    | none => return Json.mkObj [("none", true), ("wireOK", wireOK (wirePre q))]
   else if op == "wparse" then
     let t ← strs (← j.getObjVal? "toks")
     match wparse (2 * t.length + 2) t with
